@@ -53,6 +53,9 @@ type Check struct {
 	seenSig     map[string]bool
 	known       []Finding
 	knownHit    map[string]int
+	// MergeKey: when set, Finish merges this check's coverage into the existing evidence file of the property
+	// under coverage[MergeKey] instead of replacing the file (used for a second part of the same property).
+	MergeKey string
 }
 
 func Tier() string {
@@ -143,6 +146,30 @@ func (c *Check) Finish() int {
 		"assumptions": c.Assumptions,
 		"wall_s":      time.Since(c.Start).Seconds(),
 		"violations":  unknown,
+	}
+	if c.MergeKey != "" {
+		var old map[string]any
+		if ob, err := os.ReadFile(filepath.Join(Root, "evidence", c.Prop+".json")); err == nil && json.Unmarshal(ob, &old) == nil {
+			if cov, ok := old["coverage"].(map[string]any); ok {
+				cov[c.MergeKey] = c.Coverage
+				if ex, ok := c.Coverage["exhaustive"].(bool); ok && !ex {
+					cov["exhaustive"] = false
+				}
+			}
+			if v, ok := old["violations"].(float64); ok {
+				old["violations"] = int(v) + unknown
+			}
+			if w, ok := old["wall_s"].(float64); ok {
+				old["wall_s"] = w + time.Since(c.Start).Seconds()
+			}
+			if as, ok := old["assumptions"].([]any); ok {
+				for _, a := range c.Assumptions {
+					as = append(as, a)
+				}
+				old["assumptions"] = as
+			}
+			ev = old
+		}
 	}
 	b, _ := json.MarshalIndent(ev, "", " ")
 	_ = os.MkdirAll(filepath.Join(Root, "evidence"), 0o755)
